@@ -118,7 +118,7 @@ def make_distractor():
         _DISTRACTOR = (out.chart, harness.Instrument.BASS, harness.Difficulty.HARD, last + 96)
 
 
-def call(rec, chart, text, inst, diff, args, label):
+def call(rec, chart, text, inst, diff, args, label, derived=None):
     global _FORM
     I, D = harness.Instrument, harness.Difficulty
     i, d = I[inst], D[diff]
@@ -127,6 +127,8 @@ def call(rec, chart, text, inst, diff, args, label):
     case = {"text": text, "instrument": inst, "difficulty": diff,
             "args": [a if a is None or isinstance(a, int) else {"us": us(a)} for a in args],
             "arg_types": [type(a).__name__ for a in args]}
+    if derived is not None:
+        case["derived_keep"] = derived
     rec.ev()
     contracts.drain("C16")
     # an application holds several charts: in half of the calls ANOTHER chart (long tempo map) answers a tick-bounded question far
@@ -261,6 +263,21 @@ def drive(rec, rng, case):
         # an interval of a day and more (explicit timestamp end far beyond the last note)
         call(rec, chart, text, inst, diff, (ZERO, timedelta(days=1, seconds=30)), "interval_of_a_day_or_more")
         call(rec, chart, text, inst, diff, (ZERO, timedelta(days=2)), "interval_of_a_day_or_more")
+        # a track DERIVED from a parsed one (dataclasses.replace with fewer notes) in a chart assembled through the public constructor:
+        # its rate is about ITS notes — whatever the original track had worked out for itself stays with the original
+        if len(notes) >= 2 and key == present[0]:
+            import dataclasses
+
+            for keep in (1, len(notes) - 1):
+                try:
+                    derived = dataclasses.replace(tr, note_events=notes[:keep])
+                    I_, D_ = harness.Instrument[inst], harness.Difficulty[diff]
+                    chart2 = harness.Chart(chart.metadata, chart.global_events_track, chart.sync_track, {I_: {D_: derived}})
+                except Exception as e:  # noqa - constructor / replace unavailable in this form: skipped, not judged
+                    rec.mon(f"derived_track_skipped:{type(e).__name__}")
+                    break
+                call(rec, chart2, text, inst, diff, (), "derived_track", derived=keep)
+                call(rec, chart2, text, inst, diff, (0,), "derived_track", derived=keep)
         call(rec, chart, text, inst, diff, (None, 0), "end_tick_0")
         call(rec, chart, text, inst, diff, (0, 0), "end_tick_0")
         call(rec, chart, text, inst, diff, (ticks[-1] + 1, 0), "end_tick_0")
@@ -326,5 +343,17 @@ def replay(case, rec):
     args = tuple(a if a is None or isinstance(a, int) else timedelta(microseconds=a["us"]) for a in case["args"])
     kinds = case.get("arg_types") or [None] * len(args)
     args = tuple(_MyTick(a) if k == "_MyTick" else _MyTime(microseconds=us(a)) if k == "_MyTime" else a for a, k in zip(args, kinds))
+    chart = out.chart
+    if case.get("derived_keep"):
+        import dataclasses
+
+        I_, D_ = harness.Instrument[case["instrument"]], harness.Difficulty[case["difficulty"]]
+        tr = chart.instrument_tracks[I_][D_]
+        try:
+            chart.notes_per_second(I_, D_)  # the original track has been asked before the derived one exists
+        except ValueError:
+            pass
+        chart = harness.Chart(chart.metadata, chart.global_events_track, chart.sync_track,
+                              {I_: {D_: dataclasses.replace(tr, note_events=list(tr.note_events)[:case["derived_keep"]])}})
     for _ in range(3):  # once per call form
-        call(rec, out.chart, case["text"], case["instrument"], case["difficulty"], args, "replay")
+        call(rec, chart, case["text"], case["instrument"], case["difficulty"], args, "replay")
